@@ -178,10 +178,30 @@ def heartbeat_round(vc):
         vc.must_fail('selfcheck/nobody-ever-defunct', not [e for e in log if e[0] == 'defunct'])
 
 
-@harness('C44', 'msg_received', functions=['cassandra.connection.Connection.process_msg'])
+@harness('C44', 'msg_received', functions=['cassandra.connection.Connection.process_msg'], native='contracts.native.c44:replay')
 def msg_received(vc):
     """ensures every received frame marks the connection as not idle before it is dispatched (frame scan: the only writes of
     msg_received are process_msg (True) and reset_idle (False))"""
     from pyvc import frames
     ok, bad, sites = frames.frame_ok('msg_received', {'cassandra/connection.py::Connection.process_msg', 'cassandra/connection.py::Connection.reset_idle'})
     vc.check('frame/msg_received-written-only-by-process_msg-and-reset_idle', ok and len(sites) == 2)
+    # and executed: whatever kind of frame arrives - a pushed event (stream -1), the response of a registered request, the late response of an orphaned
+    # stream, a response nobody waits for - the connection counts as having received traffic, so the next heartbeat round leaves it alone
+    from contracts import c10_defunct as C10
+    from cassandra.connection import Connection
+    from cassandra import protocol
+    conn, st = C10._conn(vc, 1)
+    conn.attrs.update(orphaned_request_ids={7}, in_flight=2, _on_orphaned_stream_released=None, request_ids=[], user_type_map={},
+                      decompressor=None, is_unsupported_proto_version=False, msg_received=False, _iobuf=None)
+    kind = vc.choice('frame', ['pushed-event', 'registered-response', 'orphaned-late-response', 'unknown-stream'])
+    stream = {'pushed-event': -1, 'registered-response': 100, 'orphaned-late-response': 7, 'unknown-stream': 55}[kind]
+    cb0 = conn.attrs['_requests'][100][0]
+    conn.attrs['_requests'][100] = (cb0, _M(lambda *a, **k: 'RESPONSE', 'decoder'), None)
+    pushed = []
+    vc.stub(protocol._ProtocolHandler.decode_message.__func__, lambda *a, **k: 'EVENT')
+    vc.stub('cassandra.connection.Connection.handle_pushed', lambda self_, r: pushed.append(r))
+    header = vc.obj(Connection, stream=stream, version=4, flags=0, opcode=12 if stream < 0 else 8)
+    vc.call('cassandra.connection.Connection.process_msg', conn, header, b'')
+    vc.check('received/any-frame-marks-the-connection-not-idle', conn.attrs['msg_received'] is True)
+    if kind == 'pushed-event':
+        vc.check('received/event-dispatched', pushed == ['EVENT'])
